@@ -8,9 +8,9 @@
        it_priv it, it_shared it, it_op it, it_out it,
        it_step it : it_op it -> it_priv it -> it_shared it -> it_priv it * it_shared it * it_out it.
    The theorems quantify over EVERY [Item], hence hold for the instances of the built-in items
-       bd_item people   BurndownAnalysis        private: files (path -> line values), tick, previousTick,
+       bd_item people track  BurndownAnalysis   private: files (path -> line values), tick, previousTick,
                                                 mergedAuthor, mergedFiles; shared: globalHistory,
-                                                peopleHistories, matrix, deletions, renames
+                                                peopleHistories, matrix, deletions, renames, fileHistories
        rb_item          Allocator + its RBTrees private: the arena and every tree; shared: nothing
        td_item          TreeDiff                private: previousTree, previousCommit
        bc_item          BlobCache               private: cache
@@ -27,7 +27,7 @@
    by the correspondence check of ./check C08, which mutates one copy of the REAL objects and compares
    EVERY copy with its own model state after every step.  Level: proof + correspondence, partial. *)
 From Coq Require Import ZArith List Bool.
-From Herc Require Import Fork.Model Fork.Proofs Fork.Items.
+From Herc Require Import Fork.Model Fork.Proofs Fork.Lineage Fork.Items.
 Import ListNotations.
 
 Notation bstate_of it := (bstate (it_priv it) (it_shared it)) (only parsing).
@@ -141,12 +141,46 @@ Theorem C08_twin_pipeline : forall (size : Z) (acts : list (act (commit * Z))) (
 Proof. exact pl_twin. Qed.
 Print Assumptions C08_twin_pipeline.
 
+(* ---- 4b. the twin of a copy made by forks of forks.  lin_run computes, for every copy, the index r of its
+        root ancestor in the initial state and its lineage ops: the operations consumed by its chain of
+        ancestors up to each fork, then by the copy itself (AStep i o appends o to the lineage of i,
+        AFork i n appends n copies of the lineage of i).  At every moment every copy is in the state of a
+        fresh never-forked instance that started from the root's state and consumed the lineage, and
+        the next Consume on it answers what that instance answers.  This is literally the oracle of the
+        pl stream of the harness (it replays the branch-local history on fresh instances). ---- *)
+Theorem C08_lineage_twin : forall (it : Item) (vd : ViewDet it) (acts : list (act (it_op it))) (bs : bstate_of it)
+    (s0 : it_shared it) (j r : nat) (ops : list (it_op it)),
+  vd_view it vd s0 = vd_view it vd (shd bs) ->
+  forallb (iact_ok it vd) acts = true ->
+  nth_error (lin_run (it_op it) acts (lin_init (it_op it) (length (privs bs)))) j = Some (r, ops) ->
+  exists p0, nth_error (privs bs) r = Some p0 /\
+    nth_error (privs (fst (run_of it acts bs))) j = Some (fst (fst (solo_of it ops p0 s0))) /\
+    forall o, snd (step_on (it_priv it) (it_shared it) (it_op it) (it_out it) (it_step it) j o (fst (run_of it acts bs)))
+              = Some (snd (it_step it o (fst (fst (solo_of it ops p0 s0))) (snd (fst (solo_of it ops p0 s0))))).
+Proof. exact item_lineage_twin. Qed.
+Print Assumptions C08_lineage_twin.
+
+Theorem C08_lineage_twin_pipeline : forall (size : Z) (acts : list (act (commit * Z))) (bs : bstate pl_priv tk_shared)
+    (s0 : tk_shared) (j r : nat) (ops : list (commit * Z)),
+  ts_tick0 s0 = ts_tick0 (shd bs) ->
+  forallb (fun a => match a with AStep _ o => negb (Z.eqb (snd o) 0) | AFork _ _ => true end) acts = true ->
+  nth_error (lin_run (commit * Z) acts (lin_init (commit * Z) (length (privs bs)))) j = Some (r, ops) ->
+  exists p0, nth_error (privs bs) r = Some p0 /\
+    nth_error (privs (fst (run pl_priv tk_shared (commit * Z) pl_out (pl_step size) acts bs))) j
+      = Some (fst (fst (solo pl_priv tk_shared (commit * Z) pl_out (pl_step size) ops p0 s0))) /\
+    forall o, snd (step_on pl_priv tk_shared (commit * Z) pl_out (pl_step size) j o
+                     (fst (run pl_priv tk_shared (commit * Z) pl_out (pl_step size) acts bs)))
+              = Some (snd (pl_step size o (fst (fst (solo pl_priv tk_shared (commit * Z) pl_out (pl_step size) ops p0 s0)))
+                                          (snd (fst (solo pl_priv tk_shared (commit * Z) pl_out (pl_step size) ops p0 s0))))).
+Proof. exact pl_lineage_twin. Qed.
+Print Assumptions C08_lineage_twin_pipeline.
+
 (* ---- 5. the burndown instance spelled out: the tracked files of a sibling stay exactly as they were ---- *)
-Theorem C08_burndown_files : forall (people : bool) (acts : list (act bd_op)) (bs : bstate bd_priv bd_shared)
+Theorem C08_burndown_files : forall (people track : bool) (acts : list (act bd_op)) (bs : bstate bd_priv bd_shared)
     (j : nat) (p : bd_priv),
   nth_error (privs bs) j = Some p ->
   forallb (fun a => negb (steps_on bd_op j a)) acts = true ->
-  option_map bp_files (nth_error (privs (fst (run bd_priv bd_shared bd_op bd_out (bd_step people) acts bs))) j)
+  option_map bp_files (nth_error (privs (fst (run bd_priv bd_shared bd_op bd_out (bd_step people track) acts bs))) j)
   = Some (bp_files p).
 Proof. exact bd_files_frame. Qed.
 Print Assumptions C08_burndown_files.
@@ -169,7 +203,7 @@ Open Scope Z_scope.
 Definition ex_prefix : list (act bd_op) :=
   [AStep 0%nat (BCommit AUTHOR_MISSING 0 false [CIns 1 3 false]); AFork 0%nat 2%nat].
 Definition ex_bs : bstate bd_priv bd_shared :=
-  fst (run bd_priv bd_shared bd_op bd_out (bd_step false) ex_prefix bd_init).
+  fst (run bd_priv bd_shared bd_op bd_out (bd_step false false) ex_prefix bd_init).
 
 (* C08_frame / C08_fork_copies / C08_burndown_files: the hypotheses hold, the step on copy 1 is not a no-op
    (its file and the shared history change), copies 0 and 2 keep their file *)
@@ -178,11 +212,11 @@ Example C08_frame_nonvacuous :
   map bp_files (privs ex_bs) = [[(1, [0; 0; 0])]; [(1, [0; 0; 0])]; [(1, [0; 0; 0])]] /\
   forallb (fun a => negb (steps_on bd_op 0 a)) acts = true /\
   forallb (fun a => negb (steps_on bd_op 2 a)) acts = true /\
-  map bp_files (privs (fst (run bd_priv bd_shared bd_op bd_out (bd_step false) acts ex_bs)))
+  map bp_files (privs (fst (run bd_priv bd_shared bd_op bd_out (bd_step false false) acts ex_bs)))
     = [[(1, [0; 0; 0])]; [(1, [0; 1; 0; 0])]; [(1, [0; 0; 0])]] /\
-  snd (run bd_priv bd_shared bd_op bd_out (bd_step false) acts ex_bs) = [Some BOk] /\
+  snd (run bd_priv bd_shared bd_op bd_out (bd_step false false) acts ex_bs) = [Some BOk] /\
   bs_global (shd ex_bs) = [([0; 0], 3)] /\
-  bs_global (shd (fst (run bd_priv bd_shared bd_op bd_out (bd_step false) acts ex_bs))) = [([0; 0], 3); ([1; 1], 1)].
+  bs_global (shd (fst (run bd_priv bd_shared bd_op bd_out (bd_step false false) acts ex_bs))) = [([0; 0], 3); ([1; 1], 1)].
 Proof. vm_compute. repeat split; reflexivity. Qed.
 
 (* C08_shared_only: the shared bookkeeping IS a channel between branches.  Copy 1 deletes file 1 in a merge
@@ -190,12 +224,12 @@ Proof. vm_compute. repeat split; reflexivity. Qed.
    silent; if not, the three lines are reported as removed at tick 0.  The files of copy 1 are the same in
    both histories; the difference is visible in the shared history only. *)
 Example C08_shared_channel_is_real :
-  let ex2 := fst (run bd_priv bd_shared bd_op bd_out (bd_step false)
+  let ex2 := fst (run bd_priv bd_shared bd_op bd_out (bd_step false false)
                   [AStep 0%nat (BCommit AUTHOR_MISSING 0 false [CIns 1 3 false]); AFork 0%nat 1%nat] bd_init) in
   let on0 := AStep 0%nat (BCommit AUTHOR_MISSING 1 false [CDel 1 3 false]) in
   let on1 := AStep 1%nat (BCommit AUTHOR_MISSING 2 true [CDel 1 3 false]) in
-  let a := fst (run bd_priv bd_shared bd_op bd_out (bd_step false) [on0; on1] ex2) in
-  let b := fst (run bd_priv bd_shared bd_op bd_out (bd_step false) [on1] ex2) in
+  let a := fst (run bd_priv bd_shared bd_op bd_out (bd_step false false) [on0; on1] ex2) in
+  let b := fst (run bd_priv bd_shared bd_op bd_out (bd_step false false) [on1] ex2) in
   option_map bp_files (nth_error (privs a) 1) = Some [] /\
   option_map bp_files (nth_error (privs b) 1) = Some [] /\
   bs_global (shd a) = [([0; 0], 3); ([1; 0], -3)] /\
@@ -222,6 +256,15 @@ Example C08_twin_nonvacuous :
     = [PO (Some [TDel 1 1; TIns 4 4]) [1; 4] 2] /\
   map pp_td (privs (fst (run pl_priv tk_shared (commit * Z) pl_out (pl_step 86400) ex_pl_acts ex_pl0)))
     = [TP (Some [(2, 5)]) 4; TP (Some [(2, 2); (4, 4)]) 3].
+Proof. vm_compute. repeat split; reflexivity. Qed.
+
+(* C08_lineage_twin: copy 1 of the example was made by the fork inside the run; its lineage is the trunk
+   commit followed by its own commit, rooted at copy 0 *)
+Example C08_lineage_nonvacuous :
+  let acts := [AStep 0%nat (ex_c1, 1); AFork 0%nat 1%nat; AStep 0%nat (ex_c2, 2); AStep 1%nat (ex_c3, 2)] in
+  nth_error (lin_run (commit * Z) acts (lin_init (commit * Z) 1)) 1 = Some (0%nat, [(ex_c1, 1); (ex_c3, 2)]) /\
+  nth_error (lin_run (commit * Z) acts (lin_init (commit * Z) 1)) 0 = Some (0%nat, [(ex_c1, 1); (ex_c2, 2)]) /\
+  forallb (fun a => match a with AStep _ o => negb (Z.eqb (snd o) 0) | AFork _ _ => true end) acts = true.
 Proof. vm_compute. repeat split; reflexivity. Qed.
 
 (* a refused commit (not a child of the previous one) leaves the private state alone *)
